@@ -492,7 +492,7 @@ func c12Finish(c *engine.Ctx, cov map[string]interface{}) string {
 func init() {
 	register(&engine.Check{
 		ID: "C12", Level: "model_checking",
-		Rule: "every byte string of ≤k atoms over {a,NUL,0x80,0xA9,0xC3,0xE2,0xF0,é,U+2028,😀} × 11 constructors × {parse.Input, buffer.Lexer}; per case a breadth-first search to a fix-point over all reachable (start,pos) states of the real object (successor = fresh object + shortest history + one operation), every observer and mutator compared with a reference cursor; distinct_nontrivial = canonical atom sequences of ≥2 atoms on non-failing constructors",
+		Rule:        "every byte string of ≤k atoms over {a,NUL,0x80,0xA9,0xC3,0xE2,0xF0,é,U+2028,😀} × 11 constructors × {parse.Input, buffer.Lexer}; per case a breadth-first search to a fix-point over all reachable (start,pos) states of the real object (successor = fresh object + shortest history + one operation), every observer and mutator compared with a reference cursor; distinct_nontrivial = canonical atom sequences of ≥2 atoms on non-failing constructors",
 		Assumptions: []string{"operations respect the documented contract: position never moved past the terminator or before start", "private fields start,pos,buf,err are read by reflection to show that equal model states mean equal implementation states (justifies the fix-point)"},
 		Setup:       c12Setup, Work: c12Work, Finish: c12Finish,
 	})
